@@ -285,6 +285,55 @@ CTX_SYNTAX = [("return 1", "nofunc"), ("return", "nofunc"), ("if (true) { return
               ("while (true && match (1) { 1 => { continue } }) { print \"w\" }", "noloop")]
 BAD_TOKENS = ["@", "?", "^", " & ", " | ", "`", "\\"]
 
+# ---- (f) near misses: forms one token away from a valid program that the grammar refuses (kept: exactly those the reference
+# build rejects; e.g. `if (c) print 1; else print 2` is accepted because print consumes its own ';', and a trailing ',' in an
+# argument list is accepted, so neither is listed).  ';' before else for every kind of if-body, else without if, doubled or
+# misplaced ';', stray ',' in argument / element / pattern / parameter lists, missing or mismatched parentheses in headers.
+NEAR_STMTS = [
+    'if (0) x = 1; else x = 2', 'if (0) lab("a"); else lab("b")', 'if (0) x++; else x--', 'if (0) { x = 1 }; else { x = 2 }',
+    'if (0) printf("a"); else x = 1', 'if (0) next; else x = 1', 'if (0) exit; else x = 1', 'if (0) if (1) x = 1; else x = 2',
+    'if (0) if (1) x = 1 else x = 2; else x = 3', 'if (0) while (0) x = 1; else x = 2', 'if (0) for (;;) x = 1; else x = 2',
+    'if (0) for (v in []) x = 1; else x = 2', 'if (0) x = match (1) { 1 => 2 }; else x = 3', 'if (0) match (1) { 1 => 2 }; else x = 3',
+    'if (0) x = [1]; else x = 2', 'if (0) x = {a: 1}; else x = 2', 'if (0) x.k = 1; else x = 2', 'if (0) x += 1; else x = 2', 'if (0) -x; else x = 2',
+    'if (0) (x); else x = 2', 'if (0) "s"; else x = 2', 'if (0) 1; else x = 2', 'if (0) x; else x = 2', 'if (0) x = 1;\n else x = 2',
+    'if (0) x = 1 ;else x = 2', 'if (0) x = 1\n ; else x = 2', 'if (0) x = 1;; else x = 2', 'if (0) x = 1; else; x = 2', 'if (0) x = 1 else; x = 2',
+    'if (1) { x = 1 } else { x = 2 }; else { x = 3 }', 'if (0) x = 1; else if (1) x = 2; else x = 3', 'if (0) x = 1 else if (1) x = 2; else x = 3',
+    'else x = 1', 'else { x = 1 }', 'x = 1\n else x = 2', 'x = 1 else x = 2', '{ x = 1 } else { x = 2 }', 'while (0) { } else { x = 1 }',
+    'for (;;) { break } else { x = 1 }', 'for (v in []) { } else { }', 'if (1) { } else { } else { }', 'else', 'if (1) else x = 1',
+    'x = match (1) { 1 => 2 } else x = 3', 'print "a" else print "b"', 'print "a"\n else print "b"', 'else if (1) { }', 'if (1) { } else else { }',
+    'x = else', 'lab(else)', 'if (else) { }', 'x = 1;; y = 2', 'print 1;; print 2', '; x = 1', '{ ; }', '{ x = 1;; }', 'if (1) ;', 'for (;;) ;',
+    'while (0) ;', 'x = 1 ;\n; y = 2', 'x = 1; ; y = 2', 'print;; x = 1', 'print "a";;', ';', ';;', 'if (1) { };', 'if (1) { } ; x = 1',
+    'while (0) { };', 'x = match (1) { 1 => 2 };', 'lab("a");; lab("b")', 'x = [1;]', 'lab(1;)', 'x = (1;)', 'for (;;;) { break }',
+    'for (i = 0;; i < 2; i++) { }', 'if (1;) { }', 'while (0;) { }', 'x = match (1;) { 1 => 2 }', 'x = match (1) { 1 => 2; 3 => 4 }',
+    'x = match (1) { 1 => 2;, 3 => 4 }', 'x = {a: 1; b: 2}', 'lab(,)', 'lab(, "a")', 'lab("a",,"b")', 'x = fn2(1,, 2)', 'x = "a".upper(,)', 'x = [,]',
+    'x = [, 1]', 'x = [1,, 2]', 'x = {,}', 'x = {a: 1,, b: 2}', 'x = {, a: 1}', 'x = lab(("a",))', 'x = ("a",)', 'x = (1, 2)', 'print "a",, "b"',
+    'print , "a"', 'x = match (1) { 1, => 2 }', 'x = match (1) { , 1 => 2 }', 'x = match (1) { 1 => 2,, 3 => 4 }', 'x = match (1) { 1,, 2 => 3 }',
+    'x = match (1,) { 1 => 2 }', 'x = match ([1]) { [,1] => 2 }', 'for (v, in [1]) { }', 'for (, v in [1]) { }', 'for (k, v, in {}) { }',
+    'for (k,, v in {}) { }', 'for (k, v, w in {}) { }', 'if x { }', 'if 1 x = 2', 'if 1 { x = 2 }', 'if true print "a"', 'while x { }',
+    'while 0 { break }', 'while 0 x = 1', 'for i = 0; i < 2; i++ { }', 'for v in [1] { }', 'for k, v in {} { }', 'for (v in [1] { }',
+    'for v in [1]) { }', 'for (i = 0; i < 2; i++ { }', 'for i = 0; i < 2; i++) { }', 'if (x { }', 'if x) { }', 'while (0 { }', 'while 0) { }',
+    'match 1 { 1 => 2 }', 'x = match 1 { 1 => 2 }', 'x = match (1 { 1 => 2 }', 'x = match 1) { 1 => 2 }', 'for (i = 0; i < 2) { }', 'for (i = 0) { }',
+    'for () { }', 'for (;) { }', 'while () { }', 'if () { }', 'x = match () { 1 => 2 }', 'x = match { 1 => 2 }', 'if { }', 'while { x = 1 }',
+    'for { }', 'if (1) (2) (3', 'for (v in) { }', 'for (in [1]) { }', 'for (v [1]) { }', 'for (v of [1]) { }', 'if (1) { x = 1', 'while (0) x = 1 }',
+    'if [1] { }', 'if (1] { }', 'if {1} { }', 'for [i = 0; i < 1; i++] { }', 'x = match [1] { 1 => 2 }', 'x = match (1) ( 1 => 2 )',
+    'x = match (1) [ 1 => 2 ]', 'x = match (1) { 1 = 2 }', 'x = match (1) { 1 -> 2 }', 'x = match (1) { 1 => }', 'x = match (1) { => 2 }',
+    'x = match (1) { 1 2 }', 'x = match (1) 1 => 2', 'x = lab "a"', 'x = lab("a"', 'x = lab "a")', 'lab "a"', 'print("a"', 'print "a")', 'printf "a"',
+]
+NEAR_FUNC_STMTS = [
+    'if (0) return 1; else return 2', 'if (a) return 1; else x = 2', 'return 1;; x = 2', 'return 1, 2', 'return (1,)',
+]
+NEAR_LOOP_STMTS = [
+    'if (0) break; else continue', 'if (0) continue; else break', 'if (0) break; else x = 1', 'break;; x = 1', 'continue;;',
+]
+NEAR_TOP = [
+    'function g(,) { }', 'function g(, a) { }', 'function g(a,, b) { }', 'function g a { }', 'function g(a { }', 'function g a) { }',
+    'function g { }', 'function (a) { }', 'function g() x = 1', 'function g(a; b) { }', 'function g(a) { };', 'BEGIN { };', ';',
+    'BEGIN { } ; END { }', 'BEGIN print "a"', 'else { }', 'BEGIN { } else { }', '{ print } else { print }', '$ > 1 else { }', 'function g[a] { }',
+    'function g(1) { }', 'function g("a") { }', 'function g(a = 1) { }', 'function 1() { }', 'function BEGIN() { }', 'BEGIN, END { }',
+    'BEGIN { } , END { }', '$ > 1, $ < 2 { print }', ', { print }', '{ print } ,', 'function g() { } function', 'function', 'function g',
+    'BEGIN { print "a" } }', '{ { print }', 'BEGIN { print "a" } )', 'BEGIN { print "a" } ]',
+]
+
 
 # ---- (d) bytes that cannot start a token.  The lexer reads the text byte by byte; letters and digits are judged on the byte
 # value, so 0xAA, 0xB5, 0xBA and 0xC0-0xFF (Latin-1 letters, UTF-8 lead bytes) may be part of a name: only "maybe" errors.
@@ -386,6 +435,10 @@ class C11(Check):
             "no token starts with (controls, DEL, 0x80-0xBF, BOMs, multi-byte sequences) after complete rules (end, after the final newline, "
             "between rules, glued to a rule, start, token boundary) followed by nothing / rules / junk: syntax error and no output; (e) a container "
             "compared with itself (same variable, parameter, path, element, alias) by all six operators faults like any container comparison. "
+            "(f) %d near-miss forms the grammar refuses (';' before else for every kind of if-body, else without if, doubled or misplaced "
+            "';', stray ',' in argument/element/pattern/parameter lists, missing or mismatched parentheses in if/while/for/match/function "
+            "headers), as statements in every host and nest and between rules, after rules and statements that print: syntax error, no output. "
+            % (len(NEAR_STMTS) + len(NEAR_FUNC_STMTS) + len(NEAR_LOOP_STMTS) + len(NEAR_TOP)) +
             "non-trivial = output before the fault is "
             "non-empty and a statement follows it")
 
@@ -496,6 +549,24 @@ class C11(Check):
             stmt = rng.choice(["%s\n %s\n %s" % (before, s, after), "%s\n %s" % (before, s), s, "%s; %s" % (before, s)])
             prog = prefix_rules() + build(h, n, stmt)
             add(prog, rng.choice(INPUTS), [], {"role": "syntax", "splice": s, "host": h[0], "nest": n[0]}, ("syntax-certain",))
+        # (f) near misses, after rules and statements that print
+        for forms, kind in ((NEAR_STMTS, "stmt"), (NEAR_FUNC_STMTS, "func"), (NEAR_LOOP_STMTS, "loop"), (NEAR_TOP, "top")):
+            for s in forms:
+                for rep in range(2 if quick else 12):
+                    if kind == "top":
+                        base = rng.choice(BYTE_BASES[:5])
+                        ends = [0] + rule_ends(base)
+                        e = ends[-1] if rep == 0 else rng.choice(ends)
+                        prog = prefix_rules() + base[:e] + "\n" + s + "\n" + base[e:]
+                        add(prog, rng.choice(INPUTS), [], {"role": "syntax", "splice": "near miss %r at top level" % s}, ("syntax-certain", "near-miss"))
+                        continue
+                    h = rng.choice([x for x in HOSTS if x[2]] if kind == "func" else HOSTS)
+                    n = rng.choice([x for x in NESTS if x[2]] if kind == "loop" else NESTS)
+                    before = rng.choice(["x = 1", "print \"S1\"", "lab(\"S1\")", "mk()"])
+                    after = rng.choice(["x = 2", "print \"S2\"", "lab(\"S2\")"])
+                    stmt = "%s\n %s\n %s" % (before, s, after) if rep == 0 else rng.choice(["%s\n %s\n %s" % (before, s, after), "%s\n %s" % (before, s), s, "%s; %s" % (before, s)])
+                    prog = (prefix_rules() if rep else "BEGIN { print \"pre\" }\n") + build(h, n, stmt)
+                    add(prog, rng.choice(INPUTS), [], {"role": "syntax", "splice": "near miss %r" % s, "host": h[0], "nest": n[0]}, ("syntax-certain", "near-miss"))
         ntok = 350 if quick else 6000
         for _ in range(ntok):
             h, n, p = rng.choice(combos)
